@@ -90,6 +90,7 @@ def run_case(ctx, idx, case):
     rng = __import__("random").Random(case["seed"])
     path = ctx.scratch / f"c10_{idx}.geoh5"
     failures, lines, expect = [], [], []
+    holder = None
     s = wsh.Session(path)
     try:
         for op in case["build"]:
@@ -109,7 +110,22 @@ def run_case(ctx, idx, case):
         s.ws.close()
         tree0 = None
         h0 = sha(path)
-        s.ws = Workspace(str(path), mode="r")
+        holder = None
+        if case["seed"] % 3 == 0:
+            # a third of the read-only handles come from the fallback of Workspace.open: the file is already open for reading in
+            # this process, so the default (writing) mode is refused by HDF5 and the workspace comes up read-only
+            holder = Workspace(str(path), mode="r")
+            s.ws = Workspace(str(path))
+            if s.ws.geoh5.mode != "r":
+                # no fallback on this platform: use an explicit read-only handle
+                s.ws.close()
+                holder.close()
+                holder = None
+                s.ws = Workspace(str(path), mode="r")
+            else:
+                ctx.count("read-only-by-fallback")
+        else:
+            s.ws = Workspace(str(path), mode="r")
         tree0 = s.snap()
         # a creation refused by the read-only gate leaves an in-memory-only object attached to its parent
         # (never on file); such phantoms are not targets: calls on them have nothing to write
@@ -201,6 +217,8 @@ def run_case(ctx, idx, case):
                     raised = True
                 judge(f"assign {type(e).__name__}.{attr}", True, raised)
         s.ws.close()
+        if holder is not None:
+            holder.close()
         judge("close", False, False)
         from geoh5py.ui_json.utils import path2workspace
         w = path2workspace(str(path))
@@ -218,6 +236,11 @@ def run_case(ctx, idx, case):
         n_mut = 0
     finally:
         s.close()
+        try:
+            if holder is not None:
+                holder.close()
+        except Exception:  # noqa: BLE001
+            pass
         if path.exists():
             os.remove(path)
     return lines, expect, failures, n_mut, tree0
